@@ -9,6 +9,7 @@ cases
                                      (room 999 = a script that calls parse() at module level under the default limit of 1000)
   ["boundary", spec, room]        -> c11_nest.boundary: the deepest accepted ladder of a family and what emit() does there
   ["first-failing", spec, room]   -> the shallowest ladder parse() accepts and emit() fails on (null: none)
+  ["short", tree | text, n]       -> c11_nest.emit_when_short: what emit() does when it is n frames short of its need
 """
 import json
 import os
@@ -28,6 +29,8 @@ def main():
             out.append(NEST.run_with_headroom(c[1] if isinstance(c[1], str) else NEST.render(c[1]), int(c[2])))
         elif c[0] == "boundary":
             out.append(NEST.boundary(c[1], int(c[2])))
+        elif c[0] == "short":
+            out.append(NEST.emit_when_short(c[1] if isinstance(c[1], str) else NEST.render(c[1]), int(c[2])))
         elif c[0] == "first-failing":
             out.append(NEST.first_failing(c[1], int(c[2])))
         else:
